@@ -1,0 +1,315 @@
+//! Read-only observation hooks for external verification harnesses.
+//!
+//! This module is compiled only with `--cfg vibrato_verif`. It adds no behaviour:
+//! every function either reads internal state or calls an existing crate-private
+//! function with arguments supplied by the caller.
+#![allow(missing_docs)]
+
+use crate::dictionary::connector::{Connector, ConnectorCost, ConnectorWrapper};
+use crate::dictionary::Dictionary;
+use crate::tokenizer::worker::Worker;
+
+/// A lattice node as stored by the tokenizer (BOS is not reported).
+#[derive(Clone, Debug, PartialEq, Eq, PartialOrd, Ord)]
+pub struct NodeDump {
+    pub start_node: usize,
+    pub start_word: usize,
+    pub end_word: usize,
+    /// 0 = system, 1 = user, 2 = unknown
+    pub lex_type: u8,
+    pub word_id: u32,
+    pub left_id: u16,
+    pub right_id: u16,
+    pub min_cost: i32,
+}
+
+#[derive(Clone, Debug, Default)]
+pub struct LatticeDump {
+    pub len_char: usize,
+    pub nodes: Vec<NodeDump>,
+    /// (start_node, min_cost) of EOS if the lattice has one.
+    pub eos: Option<(usize, i32)>,
+}
+
+/// Dumps the lattice left by the last `tokenize()` of `worker`.
+pub fn lattice_dump(worker: &Worker) -> LatticeDump {
+    let (raw, eos, len_char) = worker.lattice.verif_nodes();
+    let nodes = raw
+        .into_iter()
+        .map(|(end_word, n)| NodeDump {
+            start_node: n.start_node,
+            start_word: n.start_word,
+            end_word,
+            lex_type: n.lex_type as u8,
+            word_id: n.word_id,
+            left_id: n.left_id,
+            right_id: n.right_id,
+            min_cost: n.min_cost,
+        })
+        .collect();
+    LatticeDump {
+        len_char,
+        nodes,
+        eos: eos.map(|e| (e.start_node, e.min_cost)),
+    }
+}
+
+/// Connection cost between `right_id` (of the left word) and `left_id` (of the right word).
+pub fn conn_cost(dict: &Dictionary, right_id: u16, left_id: u16) -> i32 {
+    match dict.connector() {
+        ConnectorWrapper::Matrix(c) => c.cost(right_id, left_id),
+        ConnectorWrapper::Raw(c) => c.cost(right_id, left_id),
+        ConnectorWrapper::Dual(c) => c.cost(right_id, left_id),
+    }
+}
+
+pub fn num_left(dict: &Dictionary) -> usize {
+    dict.connector().num_left()
+}
+
+pub fn num_right(dict: &Dictionary) -> usize {
+    dict.connector().num_right()
+}
+
+/// 0 = matrix, 1 = raw, 2 = dual
+pub fn connector_kind(dict: &Dictionary) -> u8 {
+    match dict.connector() {
+        ConnectorWrapper::Matrix(_) => 0,
+        ConnectorWrapper::Raw(_) => 1,
+        ConnectorWrapper::Dual(_) => 2,
+    }
+}
+
+pub fn has_mapper(dict: &Dictionary) -> bool {
+    dict.mapper().is_some()
+}
+
+pub fn has_user_lexicon(dict: &Dictionary) -> bool {
+    dict.user_lexicon().is_some()
+}
+
+/// Category names in id order.
+pub fn categories(dict: &Dictionary) -> Vec<String> {
+    dict.char_prop().verif_category_names().to_vec()
+}
+
+/// (cate_idset, base_id, invoke, group, length) of a character.
+pub fn char_info(dict: &Dictionary, c: char) -> (u32, u32, bool, bool, u16) {
+    let ci = dict.char_prop().char_info(c);
+    (
+        ci.cate_idset(),
+        ci.base_id(),
+        ci.invoke(),
+        ci.group(),
+        ci.length(),
+    )
+}
+
+pub mod scorer {
+    use crate::dictionary::connector::verif::{ScorerBuilder, U31x8, INVALID_FEATURE_ID, SIMD_SIZE};
+    use crate::num::U31;
+
+    /// Builds a scorer from `(key1, key2, cost)` triples and evaluates
+    /// `accumulate_cost` on the two key vectors (padded to a multiple of the SIMD
+    /// width with the invalid feature id, as the connectors do).
+    pub fn eval(entries: &[(u32, u32, i32)], keys1: &[u32], keys2: &[u32]) -> Option<i32> {
+        let mut b = ScorerBuilder::new();
+        for &(k1, k2, c) in entries {
+            b.insert(U31::new(k1)?, U31::new(k2)?, c);
+        }
+        let scorer = b.build();
+        let pad = |ks: &[u32]| -> Option<Vec<U31>> {
+            let mut v = vec![];
+            for &k in ks {
+                v.push(U31::new(k)?);
+            }
+            while v.len() % SIMD_SIZE != 0 {
+                v.push(INVALID_FEATURE_ID);
+            }
+            Some(v)
+        };
+        let k1 = pad(keys1)?;
+        let k2 = pad(keys2)?;
+        Some(scorer.accumulate_cost(&U31x8::to_simd_vec(&k1), &U31x8::to_simd_vec(&k2)))
+    }
+
+    /// Builds a scorer once and looks up every query pair on its own, each query
+    /// placed in lane `i % 8` with all other lanes invalid.
+    pub fn lookup_all(entries: &[(u32, u32, i32)], queries: &[(u32, u32)]) -> Option<Vec<i32>> {
+        let mut b = ScorerBuilder::new();
+        for &(k1, k2, c) in entries {
+            b.insert(U31::new(k1)?, U31::new(k2)?, c);
+        }
+        let scorer = b.build();
+        let mut out = Vec::with_capacity(queries.len());
+        for (i, &(q1, q2)) in queries.iter().enumerate() {
+            let mut k1 = [INVALID_FEATURE_ID; SIMD_SIZE];
+            let mut k2 = [INVALID_FEATURE_ID; SIMD_SIZE];
+            k1[i % SIMD_SIZE] = U31::new(q1)?;
+            k2[i % SIMD_SIZE] = U31::new(q2)?;
+            out.push(scorer.accumulate_cost(&U31x8::to_simd_vec(&k1), &U31x8::to_simd_vec(&k2)));
+        }
+        Some(out)
+    }
+}
+
+#[cfg(feature = "train")]
+pub mod train {
+    use std::num::NonZeroU32;
+
+    use crate::common;
+    use crate::errors::Result;
+    use crate::trainer::{Model, TrainerConfig};
+
+    /// Parses `rewrite_def` and applies the rule set of `section`
+    /// (0 = unigram, 1 = left, 2 = right) to `features`.
+    pub fn rewrite(
+        rewrite_def: &[u8],
+        section: u8,
+        features: &[String],
+    ) -> Result<Option<Vec<String>>> {
+        let (u, l, r) = TrainerConfig::verif_parse_rewrite_config(rewrite_def)?;
+        let rw = match section {
+            0 => u,
+            1 => l,
+            _ => r,
+        };
+        Ok(rw.rewrite(features))
+    }
+
+    /// One template-expansion call: kind 0 = unigram (with category id), 1 = left, 2 = right.
+    pub struct ExpandCall {
+        pub kind: u8,
+        pub features: Vec<String>,
+        pub cate_id: u32,
+    }
+
+    pub struct ExpandResult {
+        /// Per call: for unigram the ids of the templates that produced a feature
+        /// (flattened, as the trainer consumes them); for left/right one entry per
+        /// template, `None` where the template yields no feature.
+        pub ids: Vec<Vec<Option<u32>>>,
+        pub unigram_map: Vec<(String, u32)>,
+        pub left_map: Vec<(String, u32)>,
+        pub right_map: Vec<(String, u32)>,
+    }
+
+    pub fn expand(feature_def: &[u8], calls: &[ExpandCall]) -> Result<ExpandResult> {
+        let mut fe = TrainerConfig::parse_feature_config(feature_def)?;
+        let mut ids = vec![];
+        for c in calls {
+            let r: Vec<Option<u32>> = match c.kind {
+                0 => fe
+                    .extract_unigram_feature_ids(&c.features, c.cate_id)
+                    .into_iter()
+                    .map(|x| Some(x.get()))
+                    .collect(),
+                1 => fe
+                    .extract_left_feature_ids(&c.features)
+                    .into_iter()
+                    .map(|x| x.map(NonZeroU32::get))
+                    .collect(),
+                _ => fe
+                    .extract_right_feature_ids(&c.features)
+                    .into_iter()
+                    .map(|x| x.map(NonZeroU32::get))
+                    .collect(),
+            };
+            ids.push(r);
+        }
+        let flat = |m: &hashbrown::HashMap<String, NonZeroU32>| {
+            let mut v: Vec<(String, u32)> = m.iter().map(|(k, v)| (k.clone(), v.get())).collect();
+            v.sort();
+            v
+        };
+        Ok(ExpandResult {
+            ids,
+            unigram_map: flat(&fe.unigram_feature_ids),
+            left_map: flat(&fe.left_feature_ids),
+            right_map: flat(&fe.right_feature_ids),
+        })
+    }
+
+    /// Plain-data view of a trained model.
+    pub struct ModelView {
+        pub weights: Vec<f64>,
+        pub unigram_weight_indices: Vec<Option<u32>>,
+        /// `bigram_weight_indices[left_feature_id]` as sorted `(right_feature_id, weight index)`.
+        pub bigram_weight_indices: Vec<Vec<(u32, u32)>>,
+        /// Per label: (unigram ids, bigram_right ids, bigram_left ids) as stored in the provider.
+        pub feature_sets: Vec<(Vec<u32>, Vec<Option<u32>>, Vec<Option<u32>>)>,
+        pub unigram_map: Vec<(String, u32)>,
+        pub left_map: Vec<(String, u32)>,
+        pub right_map: Vec<(String, u32)>,
+        pub surfaces: Vec<String>,
+        pub num_unk: usize,
+        /// (surface, feature, left, right, cost, label id)
+        pub user_entries: Vec<(String, String, u16, u16, i16, u32)>,
+    }
+
+    type RawSets = Vec<(
+        Vec<NonZeroU32>,
+        Vec<Option<NonZeroU32>>,
+        Vec<Option<NonZeroU32>>,
+    )>;
+
+    pub fn model_view(model: &mut Model) -> Result<ModelView> {
+        let cfg = common::bincode_config();
+        let bytes = bincode::encode_to_vec(&*model.data.raw_model.feature_provider(), cfg)?;
+        let (sets, _): (RawSets, usize) = bincode::decode_from_slice(&bytes, cfg)?;
+        let feature_sets = sets
+            .into_iter()
+            .map(|(u, r, l)| {
+                (
+                    u.into_iter().map(NonZeroU32::get).collect(),
+                    r.into_iter().map(|x| x.map(NonZeroU32::get)).collect(),
+                    l.into_iter().map(|x| x.map(NonZeroU32::get)).collect(),
+                )
+            })
+            .collect();
+        let raw = &model.data.raw_model;
+        let flat = |m: &hashbrown::HashMap<String, NonZeroU32>| {
+            let mut v: Vec<(String, u32)> = m.iter().map(|(k, v)| (k.clone(), v.get())).collect();
+            v.sort();
+            v
+        };
+        let fe = &model.data.config.feature_extractor;
+        Ok(ModelView {
+            weights: raw.weights().to_vec(),
+            unigram_weight_indices: raw
+                .unigram_weight_indices()
+                .iter()
+                .map(|x| x.map(NonZeroU32::get))
+                .collect(),
+            bigram_weight_indices: raw
+                .bigram_weight_indices()
+                .iter()
+                .map(|hm| {
+                    let mut v: Vec<(u32, u32)> = hm.iter().map(|(&k, &v)| (k, v)).collect();
+                    v.sort_unstable();
+                    v
+                })
+                .collect(),
+            feature_sets,
+            unigram_map: flat(&fe.unigram_feature_ids),
+            left_map: flat(&fe.left_feature_ids),
+            right_map: flat(&fe.right_feature_ids),
+            surfaces: model.data.config.surfaces.clone(),
+            num_unk: model.data.config.dict.unk_handler().len(),
+            user_entries: model
+                .user_entries
+                .iter()
+                .map(|(w, p, l)| {
+                    (
+                        w.surface().to_string(),
+                        w.feature().to_string(),
+                        p.left_id,
+                        p.right_id,
+                        p.word_cost,
+                        l.get(),
+                    )
+                })
+                .collect(),
+        })
+    }
+}
